@@ -61,6 +61,11 @@ RAW_DOCS = [
     '<p:a xmlns:p="urn:p" xmlns:unused="urn:unused"><p:b xmlns:p="urn:p2">p:x</p:b></p:a>',
     # redeclared default namespace, reset to none
     '<a xmlns="urn:a"><b xmlns=""><c xmlns="urn:c"/></b></a>',
+    # a declared single-byte encoding with non-ASCII characters in the root start tag (whatever the text comes out as, the root-only
+    # parse and the full parse must agree on it)
+    '<?xml version="1.0" encoding="ISO-8859-1"?><x owner="Renée"><y>é</y></x>', '<?xml version="1.0" encoding="ISO-8859-15"?><übersicht a="1"/>',
+    '<?xml version="1.0" encoding="windows-1252"?><x n="€uro"/>', '<?xml version="1.0" encoding="US-ASCII"?><x owner="R"/>',
+    '<?xml version="1.0" encoding="utf-8"?><x owner="Renée ★"/>',
     # white space and line ends
     '<x>\r\nline\rend\t</x>', '<x  a = "1"   b=\'2\' ><y  /></x >',
 ]
@@ -162,8 +167,14 @@ class C17(Check):
                 indep = X.canon(X.from_lxml(ET.fromstring(xml.encode('utf-8'))))
             except Exception as e:
                 indep = 'parse-error:' + repr(e)[:100]
+            try:
+                tag, attrib = nx.parse_root(raw)
+                root_ok = tag == t1.tag and dict(attrib) == dict(t1.attrib)
+                root_got = [str(tag), sorted(dict(attrib).items())]
+            except Exception as e:
+                root_ok, root_got = False, 'exc:' + type(e).__name__
             return {'mem': mem, 'back': X.canon(X.from_lxml(t2)), 'ns_same': ns1 == nsmaps(t2), 'untouched': after == mem and ns_after == ns1,
-                    'indep': indep, 'ndecl': xml.count('<?xml')}
+                    'indep': indep, 'ndecl': xml.count('<?xml'), 'root_ok': root_ok, 'root_got': root_got, 'root_full': [t1.tag, sorted(dict(t1.attrib).items())]}
         if k in ('doc', 'ctor'):
             el = X.to_lxml(case['tree']) if k == 'doc' else run_ctor(case['steps'])
             mem = X.canon(X.from_lxml(el))
@@ -256,6 +267,8 @@ class C17(Check):
                 return ('C17:independent-parser-disagrees:raw', 'xml.etree reads the serialised form differently from the tree (%s): %s' % (tag, str(io['indep'])[:120]))
             if io['ndecl'] != 1:
                 return ('C17:declaration-count', 'serialised form has %d XML declarations' % io['ndecl'])
+            if not io['root_ok']:
+                return ('C17:parse-root-disagrees', 'parse_root gives %s, the full parse %s (%s)' % (io['root_got'], io['root_full'], tag))
             return None
         if k == 'plain':
             if 'unbuildable' in io:
